@@ -125,10 +125,14 @@ func (g *G) Blocked() bool {
 	case strings.HasPrefix(st, "chan receive"),
 		strings.HasPrefix(st, "chan send"),
 		strings.HasPrefix(st, "select"),
-		strings.HasPrefix(st, "sync."),
-		strings.HasPrefix(st, "semacquire"):
+		strings.HasPrefix(st, "sync."):
 		return true
 	}
+	// NOT blocked: plain "semacquire". The runtime parks allocating goroutines
+	// with that reason while a GC cycle starts (observed: a relay goroutine and a
+	// flow tracker in semacquire inside mallocgc while all others were blocked,
+	// 14 traces arrived afterwards) and wakes them itself. The sync package's
+	// own waits have dedicated reasons (sync.Mutex.Lock, sync.WaitGroup.Wait, ...).
 	return false
 }
 
